@@ -11,6 +11,8 @@ import (
 	"time"
 
 	"golang.org/x/tools/go/ssa"
+
+	"gosym/wq"
 )
 
 type abortPath struct{ reason string }
@@ -100,6 +102,7 @@ type Explorer struct {
 	WitnessK     int
 	MaxViolPerLabel int
 	Pin          *Pin
+	Q            *wq.Queue // shared work queue (nil: explore alone)
 
 	// per-path state
 	prefix      []int
@@ -252,7 +255,14 @@ func (e *Explorer) shardOf(tr []int) int {
 	for _, d := range tr {
 		h.Write([]byte{byte(d), byte(d >> 8)})
 	}
-	return int(h.Sum32() % uint32(e.ShardN))
+	x := h.Sum32()
+	// murmur3 finaliser: FNV's low bits depend only on the low bits of the (tiny) inputs
+	x ^= x >> 16
+	x *= 0x85ebca6b
+	x ^= x >> 13
+	x *= 0xc2b2ae35
+	x ^= x >> 16
+	return int(x % uint32(e.ShardN))
 }
 
 // decide returns the direction taken for a symbolic condition.
@@ -592,9 +602,32 @@ func (e *Explorer) Run(name string, run func()) {
 	e.harness = name
 	e.Started = time.Now()
 	e.work = [][]int{nil}
-	for len(e.work) > 0 {
-		p := e.work[len(e.work)-1]
-		e.work = e.work[:len(e.work)-1]
+	qActive := false
+	if e.Q != nil {
+		e.work = nil
+		qActive = true // New() counts every worker as active until its first Get
+		defer func() {
+			if qActive {
+				e.Q.Leave(e.work)
+			}
+		}()
+	}
+	for {
+		var p []int
+		if len(e.work) > 0 {
+			p = e.work[len(e.work)-1]
+			e.work = e.work[:len(e.work)-1]
+		} else {
+			if e.Q == nil {
+				break
+			}
+			var ok bool
+			qActive = false
+			if p, ok = e.Q.Get(); !ok {
+				break
+			}
+			qActive = true
+		}
 		e.resetPath(p)
 		base := e.Solver.Depth()
 		e.Solver.Push()
@@ -637,12 +670,30 @@ func (e *Explorer) Run(name string, run func()) {
 		if e.Verbose && e.Paths%500 == 0 {
 			fmt.Printf("  ... %d paths, %d pending, %d queries\n", e.Paths, len(e.work), e.Solver.Queries)
 		}
-		if e.MaxPaths > 0 && e.Paths >= e.MaxPaths {
+		total := e.Paths
+		if e.Q != nil {
+			total = int(e.Q.Paths.Add(1))
+			// share the oldest (largest) pending subtree when other workers are idle
+			for len(e.work) > 1 && e.Q.Hungry() {
+				e.Q.Put(e.work[0])
+				e.work = e.work[1:]
+			}
+		}
+		if e.MaxPaths > 0 && total >= e.MaxPaths {
 			e.PathLimit = true
+			if e.Q != nil {
+				e.Q.Stop.Store(true)
+			}
 			break
 		}
 		if !e.Deadline.IsZero() && time.Now().After(e.Deadline) {
 			e.TimedOut = true
+			if e.Q != nil {
+				e.Q.Stop.Store(true)
+			}
+			break
+		}
+		if e.Q != nil && e.Q.Stop.Load() {
 			break
 		}
 	}
